@@ -142,6 +142,7 @@ func (e *env) passwordCase(c Case) {
 // ---------------------------------------------------------------- response splits (real Dial)
 
 type splitPre struct {
+	ks    *keyset
 	hour  int64
 	pad   []byte
 	resp  []byte
@@ -158,28 +159,29 @@ var (
 type splitPkts struct{ p1, p2 []byte }
 
 // pkts: the two payload packets the server sends after the handshake (the same for every split
-// case: same key pairs, hence same session keys and keystream offsets).
-func (e *env) pkts() splitPkts {
+// case of a key set: same key pairs, hence same session keys and keystream offsets).
+func (e *env) pkts(ks *keyset) splitPkts {
 	e.rmu.Lock()
-	pk := e.pk
+	pk := ks.pk
 	e.rmu.Unlock()
 	if pk != nil {
 		return *pk
 	}
-	e.call("sess.new split %s", vlib.Hex(e.dhSeed))
-	p1 := vlib.UnHex(e.call("srv.send split %d %s 3", flagData, vlib.Hex(splitData1))[1])
-	p2 := vlib.UnHex(e.call("srv.send split %d %s 0", flagData, vlib.Hex(splitData2))[1])
+	e.call("sess.new split-%s %s", ks.name, vlib.Hex(ks.seed))
+	p1 := vlib.UnHex(e.call("srv.send split-%s %d %s 3", ks.name, flagData, vlib.Hex(splitData1))[1])
+	p2 := vlib.UnHex(e.call("srv.send split-%s %d %s 0", ks.name, flagData, vlib.Hex(splitData2))[1])
 	e.rmu.Lock()
-	e.pk = &splitPkts{p1, p2}
+	ks.pk = &splitPkts{p1, p2}
 	e.rmu.Unlock()
 	return splitPkts{p1, p2}
 }
 
-func (e *env) splitPrepare(padLen int, pk splitPkts) *splitPre {
-	p := &splitPre{hour: curHour(), pad: e.padFor(padLen)}
+func (e *env) splitPrepare(padLen int, ks *keyset) *splitPre {
+	pk := e.pkts(ks)
+	p := &splitPre{ks: ks, hour: curHour(), pad: e.padFor(padLen)}
 	p.resp = e.serverResp(e.kB, p.pad, p.hour)
 	p.w = append(append([]byte(nil), p.resp...), pk.p1...)
-	rep := e.call("cli.splits %s %s %s %d %s 1 %d", modelFixed, vlib.Hex(e.kB), vlib.Hex(e.cliPriv), p.hour, vlib.Hex(p.w), len(p.w))
+	rep := e.call("cli.splits %s %s %s %d %s 1 %d", modelFixed, vlib.Hex(e.kB), vlib.Hex(ks.priv), p.hour, vlib.Hex(p.w), len(p.w))
 	if rep[0] == "ok" {
 		p.n, _ = strconv.Atoi(rep[2])
 	}
@@ -188,7 +190,6 @@ func (e *env) splitPrepare(padLen int, pk splitPkts) *splitPre {
 }
 
 func (e *env) splitCases() {
-	pk := e.pkts()
 	rng := vlib.NewRng(e.seed ^ 0x5711)
 	var pads []int
 	if e.r.Thorough() {
@@ -218,13 +219,19 @@ func (e *env) splitCases() {
 			defer wg.Done()
 			for j := range jobs {
 				for _, s := range j.splits {
-					e.splitCase(Case{Kind: "split", Seed: e.seed, PadLen: j.padLen, Split: s}, j.pre)
+					e.splitCase(Case{Kind: "split", Seed: e.seed, PadLen: j.padLen, Split: s, Fast: j.pre.ks == e.fast}, j.pre)
 				}
 			}
 		}()
 	}
-	for _, padLen := range pads {
-		pre := e.splitPrepare(padLen, pk)
+	for i, padLen := range pads {
+		// bulk enumeration with the short-exponent client key; every 16th padding length (and the
+		// whole quick tier) with the full-size key
+		ks := e.full
+		if e.r.Thorough() && i%16 != 0 {
+			ks = e.fast
+		}
+		pre := e.splitPrepare(padLen, ks)
 		var splits []int
 		if e.r.Thorough() {
 			for s := 1; s < len(pre.w); s++ {
@@ -267,19 +274,23 @@ func splitSig(s int, pre *splitPre) string {
 // segments cut at c.Split; a second packet follows once the handshake is done.
 // S: the handshake completes, then exactly the two payloads are delivered. C: the model's code.
 func (e *env) splitCase(c Case, pre *splitPre) {
-	pk := e.pkts()
-	if pre == nil {
-		pre = e.splitPrepare(c.PadLen, pk)
+	ks := e.full
+	if c.Fast {
+		ks = e.fast
 	}
+	if pre == nil {
+		pre = e.splitPrepare(c.PadLen, ks)
+	}
+	pk := e.pkts(ks)
 	s := c.Split
 	if s < 1 || s >= len(pre.w) {
 		return
 	}
 	if curHour() != pre.hour {
 		// the hour changed since the response was computed: recompute for this case
-		pre = e.splitPrepare(c.PadLen, e.pkts())
+		pre = e.splitPrepare(c.PadLen, ks)
 	}
-	dl := startDial(e.cf, e.ca, "10.0.0.1:1")
+	dl := startDial(e.cf, ks.ca, "10.0.0.1:1")
 	defer func() {
 		if !dl.sc.Closed() {
 			dl.sc.Close()
@@ -297,6 +308,7 @@ func (e *env) splitCase(c Case, pre *splitPre) {
 	}
 	e.r.Case(fmt.Sprintf("split/%d/%d", c.PadLen, s), s < len(pre.resp))
 	e.r.Count("kind", "split")
+	e.r.Count("split_client_key", ks.name)
 	e.r.Count("server_pad", bucket(c.PadLen))
 	switch {
 	case s < dhSize:
